@@ -11,6 +11,7 @@ Models: QmcModel/Loop.lean (directed_loop.rs), QmcModel/Generic.lean (qmc_runner
 -/
 import QmcProofs.Loop
 import QmcProofs.Generic
+import QmcProps.C16
 
 namespace Qmc.C04
 open Qmc
@@ -186,6 +187,31 @@ theorem cluster_gate {q : GQmc} (h : Reach q) :
       (∀ i ∈ q.bonds, i.symUnderIsing = .ok true) ∧
       ∃ i ∈ q.bonds, i.isConstant = true ∧ i.vars.length = 1 :=
   gate_of_flags (reach_flags h)
+
+/-- What the two classifications in the gate mean for the matrices the constructors accepted
+(entries pairwise equal or ≥ eps apart, e.g. dyadic): "classified symmetric" ⇔ every entry equals
+its global-spin-flip counterpart; "constant" ⇔ all entries of a full matrix are equal; a
+diagonal table is never a cluster edge. (Corollary of C16.) -/
+theorem classification_meaning (m : List Rat) (vs : List Nat) (I : Interaction) (hs : Separated m) :
+    (Interaction.new m vs = .ok I →
+      (I.symUnderIsing = .ok true ↔ C16.FlipSymmetric m) ∧ (I.isConstant = true ↔ AllEq m)) ∧
+    (Interaction.newDiagonal m vs = .ok I →
+      (I.symUnderIsing = .ok true ↔ C16.FlipSymmetric m) ∧ I.isConstant = false) := by
+  constructor
+  · intro hI
+    obtain ⟨b, hb, hiff⟩ := C16.sym_full_iff m vs I hI hs
+    refine ⟨?_, C16.isConstant_iff m vs I hI hs⟩
+    rw [hb]
+    constructor
+    · intro h; exact hiff.mp (Res.ok.inj h)
+    · intro h; rw [hiff.mpr h]
+  · intro hI
+    obtain ⟨b, hb, hiff⟩ := C16.sym_diag_iff m vs I hI hs
+    refine ⟨?_, (C16.isConstantDiag_iff_diag m vs I hI hs).2⟩
+    rw [hb]
+    constructor
+    · intro h; exact hiff.mp (Res.ok.inj h)
+    · intro h; rw [hiff.mpr h]
 
 /-! ### 5. offsets and the reported energy -/
 
